@@ -320,7 +320,12 @@ func (r *runner) async(name string, fn func() error) *call {
 	r.calls = append(r.calls, c)
 	id := len(r.calls)
 	r.mu.Unlock()
-	r.log.Add("Call", "call", name, "cid", id)
+	// "reported" is what the API reports for the pipeline at the moment of the call (in-memory status)
+	reported := ""
+	if r.eng != nil && r.started {
+		reported = r.pipelineStatus()
+	}
+	r.log.Add("Call", "call", name, "cid", id, "reported", reported)
 	go func() {
 		err := fn()
 		c.err = err
@@ -503,6 +508,45 @@ func (r *runner) step(i int, st Step) {
 		r.faultMu.Lock()
 		r.gates = append(r.gates, g)
 		r.faultMu.Unlock()
+	case "WaitHeld":
+		// wait until the oldest unreleased store gate actually holds an operation
+		var g *storeGate
+		r.faultMu.Lock()
+		for _, x := range r.gates {
+			if !isReleased(x) {
+				g = x
+				break
+			}
+		}
+		r.faultMu.Unlock()
+		if g == nil {
+			r.log.Add("Skip", "step", i, "do", st.Do, "why", "no gate")
+			return
+		}
+		ms := st.Ms
+		if ms == 0 {
+			ms = 2000
+		}
+		select {
+		case <-g.held:
+		case <-time.After(time.Duration(ms) * time.Millisecond):
+			r.log.Add("Skip", "step", i, "do", st.Do, "why", "gate not reached")
+		}
+	case "AwaitCalls":
+		// wait (bounded, no verdict) for the outstanding control calls to return
+		r.mu.Lock()
+		calls := append([]*call(nil), r.calls...)
+		r.mu.Unlock()
+		ms := st.Ms
+		if ms == 0 {
+			ms = 3000
+		}
+		deadline := time.Now().Add(time.Duration(ms) * time.Millisecond)
+		for _, c := range calls {
+			if d := time.Until(deadline); d > 0 {
+				waitCall(c, d)
+			}
+		}
 	case "ReleaseStore":
 		var g *storeGate
 		r.faultMu.Lock()
@@ -655,7 +699,7 @@ func (r *runner) finalize() {
 	if final == "" {
 		final = "stopandwait"
 	}
-	r.awaitCalls()
+	r.awaitCalls(true)
 	r.mu.Lock()
 	stopAccepted := false
 	for _, c := range r.calls {
@@ -694,7 +738,7 @@ func (r *runner) finalize() {
 			}, 2*time.Second)
 		}
 	}
-	r.awaitCalls()
+	r.awaitCalls(false)
 	if r.started && final != "none" {
 		// the run must have ended: status no longer running
 		ok := r.log.WaitFor(func() bool {
@@ -740,13 +784,14 @@ func (r *runner) restartCheck() {
 }
 
 // awaitCalls waits (bounded) for every outstanding control call; a call that does not return is a Hang.
-func (r *runner) awaitCalls() {
+func (r *runner) awaitCalls(skipWaits bool) {
 	deadline := time.Now().Add(hangBound)
 	r.mu.Lock()
 	calls := append([]*call(nil), r.calls...)
 	r.mu.Unlock()
 	for i, c := range calls {
-		if c.hung {
+		if c.hung || (skipWaits && c.name == "WaitPipeline") {
+			// a wait on a running pipeline returns only once that run has ended
 			continue
 		}
 		d := time.Until(deadline)
